@@ -31,6 +31,6 @@ PROP = {
     "rule": _EP_RULE + " net stream 1: connects and exhaustion policies as described in level_text. net stream 7: an accept / reject future cancelled "
             "while it waits for a slot of the full event queue (one slot, stalled transport): the request must still resolve (as rejected) and the dispatchers must "
             "end Ok once everything is dropped; PortsExhausted::Wait(Some(limit)) with free ports and a listener answering after 4 x limit: the connect must wait for "
-            "the answer; exactly connect_queue unanswered requests in an unpolled listener when all remote clients are dropped: no protocol error, every request resolves.",
+            "the answer; exactly connect_queue unanswered requests in an unpolled listener when all remote clients are dropped: no protocol error, every request resolves; connect requests abandoned (futures dropped) against an idle listener: the unanswered requests on the wire never exceed the advertised queue length, the connection survives and new connects go through afterwards.",
     "assumptions": ["paused-clock quiescence barrier"],
 }
